@@ -1,13 +1,18 @@
 #!/bin/bash
-# tryseed.sh <patch.diff> <ID> [tier]: apply a seeded change to /repo, run the check, always revert.
-P="$1"; ID="$2"; TIER="${3:-quick}"
-cd /repo || exit 2
-if [ -n "$(git status --porcelain)" ]; then echo "repo not clean"; exit 2; fi
-git apply "$P" 2>/dev/null || git apply --3way "$P" 2>/dev/null || { echo "patch does not apply"; git reset -q --hard HEAD; exit 2; }
-git reset -q   # keep the change in the working tree only
-cd /verif && ./vcheck "$ID" --tier "$TIER" > /tmp/tryseed.$$.out 2>&1
+# tryseed.sh <patch.diff> <ID> [tier]: run a check against a scratch checkout of /repo's HEAD with a
+# seeded change applied (VERIF_REPO); /repo itself is not touched. Evidence goes to a scratch directory.
+P="$(readlink -f "$1")"; ID="$2"; TIER="${3:-quick}"
+WT=/tmp/wtv/try.$$
+git -C /repo worktree prune
+git -C /repo worktree add -q --detach "$WT" HEAD || exit 2
+cleanup() { git -C /repo worktree remove --force "$WT" 2>/dev/null; rm -rf "/tmp/tryseed.$$.root"; }
+trap cleanup EXIT
+( cd "$WT" && (git apply "$P" 2>/dev/null || git apply --3way "$P" 2>/dev/null) ) || { echo "patch does not apply"; exit 2; }
+# a private copy of the verif tree's evidence directory so that concurrent runs do not overwrite each other
+ROOT=/tmp/tryseed.$$.root
+mkdir -p "$ROOT/evidence"
+cd /verif && VERIF_REPO="$WT" VERIF_EVIDENCE_ROOT="$ROOT" ./vcheck "$ID" --tier "$TIER" > /tmp/tryseed.$$.out 2>&1
 echo "exit=$?"
 grep -E "^(VIOLATION|KNOWN|INFRA|$ID tier)" /tmp/tryseed.$$.out | cut -c1-400 | head -8
 grep -q -E "^(VIOLATION|$ID tier)" /tmp/tryseed.$$.out || tail -5 /tmp/tryseed.$$.out
 rm -f /tmp/tryseed.$$.out
-git -C /repo reset -q --hard HEAD && git -C /repo status --porcelain | head -3
